@@ -90,6 +90,16 @@ fn main() {
             let out = keypool::add_odd(&std::fs::read_to_string(path).unwrap());
             std::fs::write(path, out).unwrap();
         }
+        Some("ts-probe") => {
+            // one-off exploration: hostile timestamp spellings through RegisteredClaims::decode
+            use paseto_core::encodings::Payload;
+            let cands = ["9999-12-31T23:59:60Z", "+010000-01-01T00:00:00Z", "-000001-01-01T00:00:00Z", "0000-01-01T00:00:00+23:59", "2039-01-01T00:00:00.1234567891Z", "2039-01-01t00:00:00z", "2039-01-01 00:00:00Z", "2039-01-01T00:00:00+24:00", "2039-01-01T00:00:00Z[UTC]", "2039-01-01T00:00:00+01:00[Europe/Paris]", "2039-01-01T00:00:00", "2039-01-01", "2039-02-30T00:00:00Z", "2039-01-01T24:00:00Z", "2039-01-01T00:00:00-00:00", "2039-01-01T00:00:00+00:00:30", "2039-01-01T00:00:00,5Z", "20390101T000000Z", "2039-W01-1T00:00:00Z", "9999-12-31T23:59:59.999999999+00:00", "9999-12-31T23:59:59-01:00", "-009999-01-02T01:59:59Z", "0000-01-01T00:00:00Z", "", " 2039-01-01T00:00:00Z", "2039-01-01T00:00:00Z ", "2039-01-01T00:00:00.Z", "2039-1-1T0:0:0Z", "2039-01-01T00:00Z", "1e3"];
+            for c in cands {
+                let doc = format!("{{\"exp\":{}}}", serde_json::to_string(c).unwrap());
+                let r = pv::util::catch(|| paseto_json::RegisteredClaims::decode(doc.as_bytes()).map(|x| x.exp.map(|t| t.as_nanosecond())));
+                println!("{c:45} -> {:?}", r.map(|x| x.map_err(|e| format!("{e}").chars().take(50).collect::<String>())));
+            }
+        }
         Some("perturb-test") => {
             // run the failing-operation history once, loudly (no catch), and report what it contains
             pv::perturb::self_test();
